@@ -10,7 +10,7 @@ from .gen import ws
 
 # scenarios in which the implementation is known / expected to deviate from the property's rule;
 # a query tagged with one of them gets the tag appended to its oracle signature
-DEVIATIONS = ["forward", "modcall", "shadow-self", "uses-member", "uses-entry", "rettype"]
+DEVIATIONS = ["typeref-shadowed", "forward", "uses-member", "uses-entry", "rettype"]
 
 
 class Case:
@@ -81,6 +81,11 @@ def warmups(case):
     import zlib
     h = zlib.crc32(case.id.encode())
     if h % 3 or not case.queries:
+        return []
+    if any("forward" in x["tags"] for x in case.queries):
+        # what a chain through a method declared further down answers depends on which documents were analysed before
+        # (notes/C10.md, history dependence: the table a descendant's parent pointer refers to) — the model has no
+        # history, so workspaces with that recorded deviation are asked on fresh managers only
         return []
     w = []
     nf = len(case.files)
